@@ -4,10 +4,15 @@ import drv_session_common as common
 
 RULE = ("random histories (length 20-70) over 3 users x 3 clients on real OIDC and OAuth2 providers with the full operation "
         "alphabet (authorize, code/refresh parse+process, userinfo, introspection, revocation endpoint, recursive and plain "
-        "token revocation API, grant and client-session revocation, clock ticks across every lifetime boundary) plus structured "
-        "cascade/isolation scenarios; after every operation the oracle probes (out of band, read-only) every token its reference "
+        "token revocation API, grant and client-session revocation, remove-session, revocation of the whole user session, "
+        "clock ticks across every lifetime boundary), two fifths of them shaped: one user with two or three redeemed grants at "
+        "one client and grants at a second client plus a bystander, then removals / user-session / client-session revocations "
+        "followed by userinfo, introspection, refresh and revocation-endpoint requests with the surviving and the dead tokens; "
+        "plus structured cascade/isolation scenarios and logout-one / logout-all through the end-session endpoint's verified "
+        "logout; after every operation the oracle probes (out of band, read-only) every token its reference "
         "liveness says is dead at userinfo, introspection and the token endpoint's parse step, and compares the status of all "
-        "tokens outside a revoked subtree before/after. A history is non-trivial when a token exchange succeeded.")
+        "tokens outside a revoked / removed subtree before/after (object state and what userinfo / introspection answer). "
+        "A history is non-trivial when a token exchange succeeded.")
 ASSUMPTIONS = ["token values abstracted to identifiers (C04)", "client authentication succeeds for the authenticating client (C01)",
                "revocation of the parent token is 'recursive' only through Grant.revoke_token(recursive=True) / the OIDC replay path; "
                "the revocation endpoint's default policy revokes exactly the presented token"]
@@ -87,6 +92,15 @@ class Liveness:
                 g = rs.grants[rs.tok_grant[i]]
                 if g[2] == u and g[3] == c:
                     self.kill(i, "client session (%s,%s) revoked" % (u, c))
+        if k == "remove_grant" and out[0] == "ok":
+            for i in range(len(rs.tokens)):
+                if rs.tok_grant[i] == op[1]:
+                    self.kill(i, "session of grant %d removed" % op[1])
+        if k == "revoke_user" and out[0] == "ok":
+            u = rs.grants[op[1]][2]
+            for i in range(len(rs.tokens)):
+                if rs.grants[rs.tok_grant[i]][2] == u:
+                    self.kill(i, "user session of %s revoked" % u)
         if k == "tparse" and rs.oidc and op[2][0] == "tok" and out[0] == "err":
             t = rs.tokobj[op[2][1]]
             if t.token_class == "authorization_code" and op[2][1] in self.dead and "exchanged" in self.dead[op[2][1]]:
@@ -119,11 +133,16 @@ class Liveness:
 
 
 class Isolation:
-    """Status of every token outside the revoked subtree is the same before and after a revocation."""
+    """Status of every token outside the revoked / removed subtree is the same before and after a revocation or removal:
+    the state of the token object, and what the endpoints answer for it (asked out of band, read-only, right before and
+    right after the operation)."""
+
+    REVOKING = ("revoke_ep", "api_revoke", "revoke_grant", "revoke_client", "remove_grant", "revoke_user")
 
     def __init__(self, ctx, live):
         self.ctx, self.live = ctx, live
-        self.before = None
+        self.before_snap = None
+        self.answers = None
 
     def snapshot(self, rs):
         snap = {}
@@ -131,22 +150,56 @@ class Isolation:
             snap[i] = (bool(t.revoked), t.used, t.expires_at, tuple(t.scope))
         return snap
 
+    def answer(self, rs, i):
+        """what userinfo / introspection (asked by the owner) say about token i"""
+        t = rs.tokobj[i]
+        owner = rs.grants[rs.tok_grant[i]][3]
+        if t.token_class not in ("access_token", "refresh_token"):
+            return None
+        o = rs.run(("introspect", owner, ("tok", i)))
+        a = [o[0] if o[0] != "exc" else "exc:" + str(o[1])]
+        if t.token_class == "access_token" and rs.oidc:
+            o = rs.run(("userinfo", ("tok", i)))
+            a.append(o[0] if o[0] != "exc" else "exc:" + str(o[1]))
+        return tuple(a)
+
+    def before(self, rs, op):
+        self.answers = None
+        if op[0] in self.REVOKING:
+            self.answers = {i: self.answer(rs, i) for i in range(len(rs.tokobj))}
+            self.ctx.count("isolation-answers-compared", len(self.answers))
+
     def __call__(self, rs, op, out, rec):
         k = op[0]
         cur = self.snapshot(rs)
-        if self.before is not None and k in ("revoke_ep", "api_revoke", "revoke_grant", "revoke_client") and out[0] == "ok":
-            if k == "revoke_grant":
+        if self.before_snap is not None and k in self.REVOKING and out[0] != "skip":
+            if out[0] != "ok":
+                affected = set()        # the operation was refused or raised: nothing at all may have changed
+            elif k in ("revoke_grant", "remove_grant"):
                 affected = {i for i in cur if rs.tok_grant[i] == op[1]}
             elif k == "revoke_client":
                 _, _, u, c = rs.grants[op[1]]
                 affected = {i for i in cur if rs.grants[rs.tok_grant[i]][2] == u and rs.grants[rs.tok_grant[i]][3] == c}
+            elif k == "revoke_user":
+                u = rs.grants[op[1]][2]
+                affected = {i for i in cur if rs.grants[rs.tok_grant[i]][2] == u}
             else:
                 ref = op[1] if k == "api_revoke" else op[2]
                 affected = {i for i in cur if ref[0] == "tok" and rs.tok_grant[i] == rs.tok_grant[ref[1]]} if ref[0] == "tok" else set()
-            for i, v in self.before.items():
+            for i, v in self.before_snap.items():
                 if i not in affected and cur.get(i) != v:
                     self.ctx.violation("isolation", "%r changed token %d of another grant: %r -> %r" % (op, i, v, cur.get(i)), self.live.hist)
-        self.before = cur
+            if self.answers is not None:
+                for i, a in self.answers.items():
+                    if i in affected or a is None:
+                        continue
+                    b = self.answer(rs, i)
+                    if a != b:
+                        g = rs.grants[rs.tok_grant[i]]
+                        self.ctx.violation("isolation", "%r changed what the endpoints answer for %s %d of grant %d (%s at %s), which it "
+                                           "does not concern: %r -> %r" % (op, rs.tokobj[i].token_class, i, rs.tok_grant[i], g[2], g[3], a, b),
+                                           self.live.hist)
+        self.before_snap = cur
 
 
 def structured():
@@ -184,6 +237,138 @@ def structured():
                  ("proc", 0, None), ("revoke_grant", 0), ("revoke_client", 0), ("introspect", "client_2", ("tok", 2)),
                  ("revoke_client", 1), ("introspect", "client_2", ("tok", 2))]
         cases.append(("revoke-twice-%s" % ("oidc" if oidc else "oauth2"), oidc, False, twice))
+    cases += structured_removal()
+    return cases
+
+
+class Hist:
+    """Builder of a structured history: every login is redeemed at once (with offline_access a redeemed grant holds
+    code, access token, refresh token and - OIDC - ID token, in that order), so token and request indices are known."""
+    SC = ["openid", "email", "offline_access"]
+
+    def __init__(self, oidc):
+        self.oidc, self.k = oidc, (4 if oidc else 3)
+        self.ops, self.client, self.gone, self.np = [], [], set(), 0
+
+    def login(self, u, c):
+        gi = len(self.client)
+        self.client.append(c)
+        self.ops.append(("authz", u, c, self.SC))
+        self.ops.append(("tparse", c, ("tok", gi * self.k), "same"))
+        self.np += 1
+        self.ops.append(("proc", self.np - 1, None))
+        return gi
+
+    def acc(self, gi):
+        return ("tok", gi * self.k + 1)
+
+    def ref(self, gi):
+        return ("tok", gi * self.k + 2)
+
+    def remove(self, gi):
+        self.ops.append(("remove_grant", gi))
+        self.gone.add(gi)
+
+    def look(self, *gis):
+        """read-only presentations of the tokens of the given grants"""
+        for gi in gis:
+            c = self.client[gi]
+            if self.oidc:
+                self.ops.append(("userinfo", self.acc(gi)))
+            self.ops += [("introspect", c, self.acc(gi)), ("introspect", c, self.ref(gi))]
+
+    def refresh(self, *gis):
+        """the refresh grant with the refresh token of each grant (a removed session: the parse step raises, nothing is queued)"""
+        for gi in gis:
+            self.ops.append(("rparse", self.client[gi], self.ref(gi), None))
+            if gi not in self.gone:
+                self.np += 1
+                self.ops.append(("proc", self.np - 1, None))
+
+    def revoke_at_ep(self, *gis):
+        for gi in gis:
+            self.ops.append(("revoke_ep", self.client[gi], self.acc(gi)))
+            self.ops.append(("introspect", self.client[gi], self.acc(gi)))
+
+
+def structured_removal():
+    """remove-session and user-session revocation: a user with several grants at one client and grants at two clients, a
+    bystander; what survives and what does not is then presented everywhere."""
+    cases = []
+    for oidc in (True, False):
+        fl = "oidc" if oidc else "oauth2"
+        # A: two grants at client_1, one at client_2, a bystander; one session removed, then the user session revoked
+        for via in (1, 2, 0):
+            for first in (0, 1):
+                h = Hist(oidc)
+                g0, g1 = h.login("diana", "client_1"), h.login("diana", "client_1")
+                g2, b = h.login("diana", "client_2"), h.login("babs", "client_1")
+                h.remove(first)
+                h.look(g0, g1, g2, b)
+                h.ops.append(("revoke_user", via))
+                h.look(g0, g1, g2, b)
+                h.refresh(g0, g1, g2, b)
+                h.revoke_at_ep(g1, b)
+                cases.append(("remove-%d-then-logout-everywhere-via-%d-%s" % (first, via, fl), oidc, False, h.ops))
+        # B: the user has one client only; removing one session leaves the sibling grant as it was
+        for first in (0, 1):
+            h = Hist(oidc)
+            g0, g1, b = h.login("diana", "client_2"), h.login("diana", "client_2"), h.login("babs", "client_2")
+            h.refresh(g0)                      # a request parsed before the removal, processed after it
+            h.ops.pop()
+            pending = h.np - 1
+            h.remove(first)
+            h.ops.append(("proc", pending, None))
+            h.look(g0, g1, b)
+            h.refresh(1 - first, b)
+            h.revoke_at_ep(1 - first)
+            h.ops += [("revoke_grant", first), ("api_revoke", h.acc(first), True), ("api_revoke", h.ref(first), False),
+                      ("revoke_ep", "client_2", h.ref(first)), ("remove_grant", first), ("revoke_client", first)]
+            h.look(g0, g1, b)
+            cases.append(("remove-%d-sibling-untouched-%s" % (first, fl), oidc, False, h.ops))
+        # C: the last grant of a client session is removed (the client node goes with it), then the user logs out everywhere
+        h = Hist(oidc)
+        g0, g1, g2, b = h.login("diana", "client_1"), h.login("diana", "client_1"), h.login("diana", "client_12"), h.login("dian", "client_12")
+        h.remove(g2)
+        h.ops += [("revoke_client", g2), ("revoke_grant", g2)]
+        h.look(g0, g1, g2, b)
+        h.ops.append(("revoke_user", g2))
+        h.look(g0, g1, b)
+        h.refresh(g0, g1, g2, b)
+        cases.append(("remove-last-of-client-then-logout-everywhere-%s" % fl, oidc, False, h.ops))
+        # D: every session of the user is removed (the user node goes too); a later login starts a new user session
+        h = Hist(oidc)
+        g0, g1, b = h.login("diana", "client_1"), h.login("diana", "client_2"), h.login("babs", "client_1")
+        h.remove(g0)
+        h.remove(g1)
+        h.ops += [("revoke_user", g0), ("revoke_client", g1)]
+        h.look(g0, g1, b)
+        g3 = h.login("diana", "client_1")
+        h.look(g3, b)
+        h.ops.append(("revoke_user", g0))
+        h.look(g0, g3, b)
+        h.refresh(g3, b)
+        cases.append(("remove-all-relogin-logout-everywhere-%s" % fl, oidc, False, h.ops))
+        # E: three grants at one client; the middle one removed; the client session revoked through the removed session's id
+        h = Hist(oidc)
+        g0, g1, g2, g3 = h.login("babs", "client_1"), h.login("babs", "client_1"), h.login("babs", "client_1"), h.login("babs", "client_2")
+        h.remove(g1)
+        h.look(g0, g1, g2, g3)
+        h.ops.append(("revoke_client", g1))
+        h.look(g0, g2, g3)
+        h.refresh(g0, g2, g3)
+        h.ops.append(("revoke_user", g3))
+        h.look(g3)
+        cases.append(("remove-middle-then-logout-one-client-%s" % fl, oidc, False, h.ops))
+        # F: a session removed between the authorization and the redemption of its code, and between parse and process
+        sc = Hist.SC
+        ops = [("authz", "diana", "client_1", sc), ("authz", "diana", "client_1", sc), ("tparse", "client_1", ("tok", 1), "same"),
+               ("authz", "diana", "client_1", sc), ("tparse", "client_1", ("tok", 2), "same"), ("proc", 1, None),
+               ("remove_grant", 0), ("remove_grant", 1),
+               ("tparse", "client_1", ("tok", 0), "same"), ("proc", 0, None), ("tparse", "client_1", ("tok", 1), "same"),
+               ("introspect", "client_1", ("tok", 3)), ("introspect", "client_1", ("tok", 4)),
+               ("rparse", "client_1", ("tok", 4), None), ("proc", 2, None)]
+        cases.append(("remove-before-redemption-%s" % fl, oidc, False, ops))
     return cases
 
 
@@ -245,13 +430,127 @@ def exchange_expiry(ctx):
                 rs.close()
 
 
+def verified_logout(ctx):
+    """Logout through the end-session endpoint's verified-logout step (Session.do_verified_logout: from one client, or
+    from all clients) on providers whose clients registered a logout URI, after random prefixes of logins (one user with
+    one to three redeemed grants per client at two clients, a bystander) and, in most runs, remove-session on one or two
+    of the user's grants first.  Oracle from the property text: afterwards every token of every session the logout
+    covers - and every token of a removed session - is refused by userinfo, reported inactive (or not at all) by
+    introspection and mints nothing at the refresh grant; everything else answers exactly as before.  (The end-session
+    endpoint is not an operation of Model/Session.v; the user-level revocation it amounts to is: RevokeUser.)"""
+    rng = ctx.rng
+    n = 24 if ctx.quick else 400
+    for i in range(n):
+        alla = (i % 3 != 2)
+        over = {c: {("frontchannel_logout_uri" if (i + j) % 2 else "backchannel_logout_uri"): "https://%s.example.com/logout" % c}
+                for j, c in enumerate(sess.CLIENTS)}
+        rs = sess.RealSession(oidc=True, client_over=over, rules=["explicit", "implied", "per-client", "handler"][i % 4])
+        try:
+            rs.server.context.httpc = lambda *a, **kw: type("R", (), {"status_code": 200, "text": ""})()
+            u = rng.choice(sess.USERS)
+            other = rng.choice([x for x in sess.USERS if x != u])
+            a, b = rng.sample(sess.CLIENTS, 2)
+            logins = [(u, a)] * rng.choice([1, 2, 2, 3]) + [(u, b)] * rng.choice([1, 1, 2]) + [(other, rng.choice([a, b]))]
+            rng.shuffle(logins)
+            rec = {"flow": "verified-logout", "all_clients": alla, "steps": []}
+            sc = ["openid", "email", "offline_access"]
+            ok = True
+            for (uu, cc) in logins:
+                o = rs.run(("authz", uu, cc, sc))
+                rs.run(("tparse", cc, ("tok", o[1][0]), "same")) if o[0] == "ok" and o[1] else None
+                p = rs.run(("proc", len(rs.parsed) - 1, None))
+                rec["steps"].append(["login+redeem", uu, cc, p[0]])
+                ok = ok and p[0] == "ok"
+            if not ok:
+                ctx.count("verified-logout:prefix-failed")
+                continue
+            mine = [gi for gi, g in enumerate(rs.grants) if g[2] == u]
+            removed = rng.sample(mine, rng.choice([0, 1, 1, 1, 2])) if len(mine) > 2 else rng.sample(mine, rng.choice([0, 1]))
+
+            def answers():
+                out = {}
+                for t in range(len(rs.tokobj)):
+                    cls = rs.tokobj[t].token_class
+                    owner = rs.grants[rs.tok_grant[t]][3]
+                    if cls == "access_token":
+                        out[t] = (rs.run(("userinfo", ("tok", t)))[0], rs.run(("introspect", owner, ("tok", t)))[0])
+                    elif cls == "refresh_token":
+                        out[t] = (rs.run(("introspect", owner, ("tok", t)))[0],)
+                return out
+
+            def honoured(t, ans):
+                return "ok" in ans[t] or "active" in ans[t]
+
+            a0 = answers()
+            for t, v in a0.items():
+                if not honoured(t, a0):
+                    ctx.count("verified-logout:prefix-token-not-live")
+            for gi in removed:
+                rs.run(("remove_grant", gi))
+                rec["steps"].append(["remove-session", gi])
+            a1 = answers()
+            for t in a1:
+                gi = rs.tok_grant[t]
+                if gi in removed and honoured(t, a1):
+                    ctx.violation("removed-honoured", "token %d of the removed session %d is still honoured: %r" % (t, gi, a1[t]), rec)
+                if gi not in removed and a1[t] != a0[t]:
+                    ctx.violation("isolation", "remove-session of %r changed what the endpoints answer for token %d of grant %d "
+                                  "(%s at %s): %r -> %r" % (removed, t, gi, rs.grants[gi][2], rs.grants[gi][3], a0[t], a1[t]), rec)
+            left = [gi for gi in mine if gi not in removed]
+            if not left:
+                ctx.count("verified-logout:nothing-left")
+                ctx.case_seen(rec, True)
+                continue
+            via = rng.choice(left)
+            rec["steps"].append(["verified-logout", "all" if alla else "one", via, rs.grants[via][3]])
+            try:
+                rs.server.get_endpoint("session").do_verified_logout(rs.grants[via][0], alla=alla)
+            except Exception as e:      # the logout itself failed: what it should have ended is judged below all the same
+                rec["steps"].append(["verified-logout raised", type(e).__name__, str(e)[:200]])
+                ctx.count("verified-logout:raised:" + type(e).__name__)
+            a2 = answers()
+            covered = {gi for gi in mine if alla or rs.grants[gi][3] == rs.grants[via][3]}
+            for t in a2:
+                gi = rs.tok_grant[t]
+                if gi in covered or gi in removed:
+                    if honoured(t, a2):
+                        ctx.violation("dead-honoured-after-logout", "after logout from %s clients (via grant %d) %s %d of grant %d (%s at %s) is "
+                                      "still honoured: %r" % ("all" if alla else "one of the", via, rs.tokobj[t].token_class, t, gi,
+                                                              rs.grants[gi][2], rs.grants[gi][3], a2[t]), rec)
+                elif a2[t] != a1[t]:
+                    ctx.violation("isolation", "logout of %s (via grant %d, all clients: %s) changed what the endpoints answer for token %d of "
+                                  "grant %d (%s at %s): %r -> %r" % (u, via, alla, t, gi, rs.grants[gi][2], rs.grants[gi][3], a1[t], a2[t]), rec)
+            # the refresh grant: mints for nobody the logout covers, still mints for the others
+            for t in list(a2):
+                if rs.tokobj[t].token_class != "refresh_token":
+                    continue
+                gi = rs.tok_grant[t]
+                o = rs.run(("rparse", rs.grants[gi][3], ("tok", t), None))
+                p = rs.run(("proc", len(rs.parsed) - 1, None)) if o[0] == "ok" else o
+                minted = (p[0] == "ok")
+                rec["steps"].append(["refresh", t, gi, p[0]])
+                if (gi in covered or gi in removed) and minted:
+                    ctx.violation("dead-minted-after-logout", "the refresh token %d of grant %d (%s at %s) still mints after the logout"
+                                  % (t, gi, rs.grants[gi][2], rs.grants[gi][3]), rec)
+                if gi not in covered and gi not in removed and not minted:
+                    ctx.violation("isolation", "the refresh token %d of grant %d (%s at %s), which the logout does not cover, no longer "
+                                  "mints: %r" % (t, gi, rs.grants[gi][2], rs.grants[gi][3], p), rec)
+            ctx.count("verified-logout:" + ("all" if alla else "one") + ":removed-%d" % len(removed))
+            ctx.case_seen(rec, True)
+        finally:
+            rs.close()
+
+
 def run(ctx):
     exchange_expiry(ctx)
+    verified_logout(ctx)
     def factory():
         live = Liveness(ctx)
         return [live, Isolation(ctx, live)]
-    n = 30 if ctx.quick else 1200
-    common.run_histories(ctx, n, (20, 70), factory, structured=structured())
+    # 3 of 5 random histories as before ("mixed"), 2 of 5 start with the several-grants-per-user prefix ("multi")
+    n = 50 if ctx.quick else 2000
+    common.run_histories(ctx, n, (20, 70), factory, structured=structured(),
+                         focus_of=lambda i: "multi" if i % 5 in (1, 4) else "mixed")
 
 
 def replay(ctx, rp):
